@@ -14,7 +14,11 @@ Decided here (equality of results over all rewrites is not decided; these are th
   C08-R4  renaming: evaluation only sees canonical depth-based names (C07-R4 must-pass-through), the symbolic copy of
           a variable is selected by `name.len() - 1` of the canonical name, in the comparator and in the projection;
   C08-R5  variable occurrences, jump targets and quantifier variables are renamed through the same scope map entry, and the new
-          name depends on the nesting depth only (the C07-R1 equations for Var / bind / exists / forall / jump nodes)."""
+          name depends on the nesting depth only (the C07-R1 equations for Var / bind / exists / forall / jump nodes).
+  (R3 also covers the parser's terminal level as a whole: a parenthesised single name takes the same route as the bare name; R5 also
+  covers the support check being made on the tree with minimised names, shared with C15-R4: formulae that differ only in variable names
+  need the same number of symbolic copies.)
+"""
 import os
 import re
 
@@ -96,8 +100,10 @@ def run(prog, rep):
     # parser side: C05's terminal rule re-used
     sub = type(rep)("C08x")
     c05.check_levels(prog, sub)
-    bad = [i for i in sub.instances if i.verdict != "ok" and "single-token" in i.key]
-    have = [i for i in sub.instances if "single-token" in i.key]
+    # (the terminal level: one token; each kind of name token becomes the node of that name - a parenthesised single name must take the
+    # same route as the bare name, constants included)
+    bad = [i for i in sub.instances if i.verdict != "ok" and ("single-token" in i.key or i.key.split(":", 1)[-1].startswith("terminal/"))]
+    have = [i for i in sub.instances if "single-token" in i.key or i.key.split(":", 1)[-1].startswith("terminal/")]
     rep.check(bool(have) and not bad, "C08-R3", "parser/group-unchanged", have[0].where if have else "", "a parenthesised group re-enters the top level; its tree is returned unchanged",
               bad[0].detail if bad else "the terminal level could not be analysed")
     # the look-ahead of `3` / `V` must skip whitespace, and whitespace skipping must accept every whitespace character (C05-R4 / R5 instances)
@@ -107,6 +113,19 @@ def run(prog, rep):
         if i.rule == "C05-R5" or (i.rule == "C05-R4" and ("arm:3" in i.key or "arm:V" in i.key)):
             (rep.ok if i.verdict == "ok" else rep.violation if i.verdict == "violation" else rep.unresolved)("C08-R3", "whitespace/" + i.key, i.where, i.detail)
     rep.floor("C08-R3", 9)
+    # variables that differ only in their names need the same number of symbolic copies: the support check is made on the tree with
+    # minimised names (shared with C15-R4 / C14-R2)
+    import c14
+    import parserspec as PS
+    import pipelines
+    subv = type(rep)("C08v")
+    veng = terms.Engine(prog, inline=True, hooks=c14.PanicHooks(prog, [PS.PARSER]))
+    roots = [f_ for f_ in pipelines.entry_points(prog) if any("str" in t_ for t_ in f_.param_tys)]
+    c14.check_validator_placement(prog, subv, veng, roots)
+    for i in subv.instances:
+        k_ = i.key.split(":", 1)[1] if ":" in i.key else i.key
+        if k_.endswith("/support") or k_.endswith("/parsed") or k_.endswith("/shape") or k_ in ("parse_and_validate", "parse_and_validate_extended"):
+            (rep.ok if i.verdict == "ok" else rep.violation if i.verdict == "violation" else rep.unresolved)("C08-R5", "names/" + k_, i.where, i.detail)
     # ---- R4
     lowlevel.check_primitives(prog, rep, "C08-R4")
     sub = type(rep)("C08y")
